@@ -134,20 +134,6 @@ def getT2 (j : Json) : R (List (List Q23)) := getList j fun r => getList r getQ
 def getT4 (j : Json) : R (List (List (List (List Q23)))) :=
   getList j fun a => getList a fun b => getList b fun c => getList c getQ
 
-/-- number of nodes created by each site step of `from_opchains` (the increments of `nid_next`) -/
-def siteNodeCounts (chains : List (OpChain Q23)) (length : Int) (oidIdentity : Int) : Except Err (List Nat) := do
-  if chains.isEmpty then throw .value
-  let nodeStart ← Node.mk' 0 [] [] 0
-  let nodeDummy ← Node.mk' (-1) [] [] 0
-  let graph ← Graph.mk' [nodeStart, nodeDummy] ([] : List (Edge Q23)) [0, -1]
-  let chains ← (chains.filter (fun c => c.coeff != 0)).mapM (fun c => c.padded length oidIdentity)
-  let vlistNext ← chains.mapM (fun c => HalfChain.mk' (c.oids ++ [oidIdentity]) (c.qnums ++ [0]) nodeStart.nid)
-  let s0 : ChState Q23 := ⟨graph, 1, 0, vlistNext, chains.map (·.coeff), []⟩
-  let (_, counts) ← (List.range length.toNat).foldlM (fun (acc : ChState Q23 × List Nat) _ => do
-    let s' ← siteStep acc.1
-    pure (s', acc.2 ++ [(s'.nidNext - acc.1.nidNext).toNat])) (s0, [])
-  pure counts
-
 def handle : Handler := fun op j =>
   match op with
   | "ham.build" => some do
